@@ -281,34 +281,38 @@ def lexSign (it : Iter) : Bytes × Iter :=
 def lexDigits (it : Iter) : Bytes × Iter :=
   ((spanDigits it.rest).1, it.eat (spanDigits it.rest).1 (spanDigits it.rest).2)
 
+/-- optional fractional part (basics.rs:81-91) -/
+def lexFrac (it2 : Iter) : Res (Bytes × Iter) :=
+  match it2.rest with
+  | b :: r =>
+    if b == 0x2e then
+      let it3 := it2.eat [b] r
+      let (fs, it4) := lexDigits it3
+      if fs.isEmpty then formatError it4   -- "expected digits after decimal point"
+      else .ok (b :: fs, it4)
+    else .ok ([], it2)
+  | [] => .ok ([], it2)
+
+/-- optional exponent part (basics.rs:93-107) -/
+def lexExp (it4 : Iter) : Res (Bytes × Iter) :=
+  match it4.rest with
+  | b :: r =>
+    if b == 0x65 || b == 0x45 then
+      let it5 := it4.eat [b] r
+      let (es, it6) := lexSign it5
+      let (xs, it7) := lexDigits it6
+      if xs.isEmpty then formatError it7   -- "expected digits after exponent"
+      else .ok (b :: (es ++ xs), it7)
+    else .ok ([], it4)
+  | [] => .ok ([], it4)
+
 def lexNumber (it : Iter) : Res (Bytes × Iter) :=
   let (sg, it1) := lexSign it
   let (ds, it2) := lexDigits it1
   if ds.isEmpty then formatError it2      -- "expected digits in number"
   else
-    let fracRes : Res (Bytes × Iter) :=
-      match it2.rest with
-      | b :: r =>
-        if b == 0x2e then
-          let it3 := it2.eat [b] r
-          let (fs, it4) := lexDigits it3
-          if fs.isEmpty then formatError it4   -- "expected digits after decimal point"
-          else .ok (b :: fs, it4)
-        else .ok ([], it2)
-      | [] => .ok ([], it2)
-    fracRes.bind fun (fr, it4) =>
-      let expRes : Res (Bytes × Iter) :=
-        match it4.rest with
-        | b :: r =>
-          if b == 0x65 || b == 0x45 then
-            let it5 := it4.eat [b] r
-            let (es, it6) := lexSign it5
-            let (xs, it7) := lexDigits it6
-            if xs.isEmpty then formatError it7   -- "expected digits after exponent"
-            else .ok (b :: (es ++ xs), it7)
-          else .ok ([], it4)
-        | [] => .ok ([], it4)
-      expRes.bind fun (ex, it7) => .ok (sg ++ ds ++ fr ++ ex, it7)
+    (lexFrac it2).bind fun (fr, it4) =>
+      (lexExp it4).bind fun (ex, it7) => .ok (sg ++ ds ++ fr ++ ex, it7)
 
 /-- `parse_number_as::<f64>` -/
 def parseNumber {N : Type} (ops : NumOps N) (it : Iter) : Res (N × Iter) :=
